@@ -671,6 +671,8 @@ def c11_job(chk, rng, i):
         if t < 11:
             if rng.chance(30):
                 return ("gdelrestart", rng.below(nsrc))
+            if rng.chance(30):
+                return ("gdelpush", rng.below(nslot))
             return (rng.choice(["gflush", "greflush"]), rng.below(nslot))
         return ("gpush", rng.below(nslot))
     for r in case["rules"]:
